@@ -209,7 +209,7 @@ def run(index: RepoIndex, rep) -> None:
     stores = [e for e in w.events if e.kind == 'store' and src(e.target.value) == vp]
     reads = [e for e in w.events if e.kind == 'load' and src(e.node.value) == gp]
     want_guard = f'({gp}.area.contains({pp}) and not ({vp}[{pp}.y, {pp}.x]))'
-    ok = len(stores) == 1 and src(stores[0].target.slice) == f'({pp}.y, {pp}.x)' and \
+    ok = len(stores) == 1 and src(w.expand(stores[0].target.slice)) == f'({pp}.y, {pp}.x)' and \
         src(stores[0].value) == 'True'
     rep.check(ok, 'C06.R4', VIS, mv.name, mv.node.lineno,
               '; '.join(src(e.stmt) for e in stores),
@@ -217,22 +217,23 @@ def run(index: RepoIndex, rep) -> None:
               'flood fill marks the position')
     from ..guards import parse_guard, prop_assignments, prop_equiv, prop_implies, prop_truth
     if stores:
-        gf = strip_iter(stores[0].guard)
+        gf = w.expand_formula(strip_iter(stores[0].guard))
         wit = prop_equiv(gf, parse_guard(want_guard))
         rep.check(wit is None, 'C06.R4', VIS, mv.name, stores[0].line, show(gf),
                   f'a position is revealed under `{show(gf)}`, not exactly when it is inside '
                   f'the area and not yet visible (differs when {wit})', 'reveal guard')
     for r in reads:
         dom = [s_ for s_ in stores if s_.order < r.order and
-               src(s_.target.slice) == f'({src(r.node.slice)}.y, {src(r.node.slice)}.x)'
-               and prop_implies(strip_iter(r.guard), strip_iter(s_.guard)) is None]
+               src(w.expand(s_.target.slice)) == f'({src(r.node.slice)}.y, {src(r.node.slice)}.x)'
+               and prop_implies(w.expand_formula(strip_iter(r.guard)),
+                                w.expand_formula(strip_iter(s_.guard))) is None]
         rep.check(bool(dom), 'C06.R2', VIS, mv.name, r.line, src(r.node),
                   f'`{src(r.node)}.blocks_vision` is read before that cell is marked visible: '
                   f'a hidden cell\'s opacity would influence the view', 'read after reveal')
     rec = [e for e in w.events if e.kind == 'call' and src(e.node.func) == mv.name]
     BV = f'{gp}[{pp}].blocks_vision'
     for e in rec:
-        gf = strip_iter(e.guard)
+        gf = w.expand_formula(strip_iter(e.guard))
         # expansion is antitone in the opacity of the current cell and depends on it
         anti, depends = True, False
         for asg in prop_assignments(gf, parse_guard(BV)):
